@@ -71,6 +71,7 @@ func (bucket *Bucket) Close(_ context.Context) {
 
 // _closeSqliteDB closes the underlying sqlite database and shuts down dcpFeeds. Must have a lock to call this function.
 func (bucket *Bucket) _closeSqliteDB() {
+	bucket.storeClosed.Store(true)
 	bucket.expManager.stop()
 	for _, c := range bucket.collections {
 		c.close()
